@@ -217,7 +217,11 @@ type run struct {
 	flushForced  bool      // the due elements did not come out while far-future ones were pending: flushed to decide by delivery order
 	endAt        time.Time // instant at which structural quiescence was established
 	together     []*item   // elements that were in the heap together (all workers held at gates, none of them started)
-	deadlock     string    // fingerprint of a structurally decided Shutdown dead-lock
+	stallKey     string
+	stallN       int
+	stalled      atomic.Bool
+	gaveUp       string // the case could not be decided within the logical bound: no never-delivered verdicts, reported as a note
+	deadlock     string // fingerprint of a structurally decided Shutdown dead-lock
 	deadText     string
 	deadSig      string
 	deadSeen     int
@@ -541,8 +545,8 @@ type obs struct {
 	s0         uint64 // tick taken before the snapshot
 	nWorkers   int    // worker / poller goroutines of this run still alive
 	parked     int    // of these: parked (sync primitive, channel, select)
-	pollCond   int    // inside Queue.Poll in sync.Cond.Wait (waiting for an element)
-	pollSelect int    // inside Queue.Poll parked in select (holding an element, waiting for timer/cancel/shutdown)
+	pollCond   int    // below the exported Queue.Poll in sync.Cond.Wait: certainly idle (waiting for an element)
+	pollSelect int    // below Queue.Poll in any other non-lock blocking primitive: holding an element (timer/cancel/shutdown) or idle on a channel
 	pollOther  int    // inside Queue.Poll parked on one of the queue's mutexes
 	inCallback int    // parked inside a harness callback (gate)
 	clients    int
@@ -550,11 +554,12 @@ type obs struct {
 	sig        string
 
 	// lock waits: goroutines of this run parked in sync.(*Mutex).Lock / sync.(*RWMutex).Lock / RLock below a runtime/timed frame
-	mutexShutdown bool // the Shutdown caller (exported Shutdown frame) is one of them
-	mutexAdd      int  // callers of the exported Add / ExecuteAt / ExecuteAfter
-	mutexPoll     int  // callers of the exported Poll (workers, pollers)
-	mutexOther    int  // Cancel, Size, ...
-	busy          int  // goroutines of this run touching the queue that are NOT parked for good (runnable, select/timer, gate, sleep, ...)
+	mutexShutdown    bool // the Shutdown caller (exported Shutdown frame) is one of them
+	mutexAdd         int  // callers of the exported Add / ExecuteAt / ExecuteAfter
+	mutexPoll        int  // callers of the exported Poll (workers, pollers)
+	mutexOther       int  // Cancel, Size, ...
+	waitingUnderPoll int  // goroutines parked below the exported Poll in a primitive that may carry a timer (select, channel, ...)
+	busy             int  // goroutines of this run touching the queue that are NOT parked for good (runnable, select/timer, gate, sleep, ...)
 }
 
 // deadCand: the Shutdown caller and at least one other caller are parked in lock acquisitions.
@@ -564,6 +569,11 @@ func (o obs) deadCand() bool { return o.mutexShutdown && o.mutexAdd+o.mutexPoll+
 // (sync.Cond.Wait under Poll, WaitGroup.Wait under Executor.Shutdown). A mutex wait involves no timer: with nobody
 // runnable, nobody can ever unlock, signal or broadcast.
 func (o obs) dead() bool { return o.deadCand() && o.busy == 0 }
+
+// stall detection: a logical bound for every wait loop (no case may spin until the child-wide watchdog)
+const stallLimit = 400
+
+var errGiveUp = fmt.Errorf("undecidable case")
 
 func (o obs) deadFP() string {
 	switch {
@@ -640,8 +650,15 @@ func (r *run) observe() obs {
 	gs := gdump.Snapshot()
 	s1 := tick()
 	var sig strings.Builder
+	running := 0
 	for _, g := range gs {
-		if r.base[g.ID] || g.State == "running" {
+		if g.State == "running" { // the snapshotting goroutine itself; any further one means something is still executing
+			if running++; running > 1 {
+				o.busy++
+			}
+			continue
+		}
+		if r.base[g.ID] {
 			continue
 		}
 		if touches := g.Has(timedPkgFrame) || g.Has("main.(*run).client") || g.Has("main.(*run).poller") || g.Has("main.(*run).doShutdown"); touches {
@@ -654,8 +671,10 @@ func (r *run) observe() obs {
 				o.mutexPoll++
 			case inMutexWait(g):
 				o.mutexOther++
-			case g.State == "sync.Cond.Wait" && hasPoll(g):
-			case g.State == "semacquire" && g.Has("sync.(*WaitGroup).Wait") && hasTimedMethod(g, "Shutdown"):
+			case g.State == "sync.Cond.Wait" && hasPoll(g): // a condition variable has no timer: idle for good unless somebody signals
+			case g.Parked() && hasPoll(g): // any other blocking primitive under Poll: holding an element (timer) or idle on a channel - see nearMayBeHeld
+				o.waitingUnderPoll++
+			case g.Parked() && g.Has("main.(*run).doShutdown") && hasTimedMethod(g, "Shutdown"): // Shutdown waiting for its workers, whatever the primitive
 			default:
 				o.busy++
 			}
@@ -663,7 +682,9 @@ func (r *run) observe() obs {
 		switch {
 		case g.Has("main.(*run).doShutdown"):
 			// harness-owned goroutine calling the exported Shutdown
-			if g.State == "semacquire" && g.Has("sync.(*WaitGroup).Wait") && g.Has("timed.(*Executor).Shutdown") {
+			// "Shutdown has parked" = the harness' own shutdown goroutine is blocked below the exported Shutdown in ANY
+			// primitive (WaitGroup, channel, select, Cond, ...) except a lock acquisition, which is transient or a dead-lock.
+			if g.Parked() && hasTimedMethod(g, "Shutdown") && !inMutexWait(g) {
 				o.shutdown = 1
 			} else {
 				o.shutdown = 2
@@ -683,15 +704,15 @@ func (r *run) observe() obs {
 			// A worker parked elsewhere - e.g. on the TaskExecutor mutex between Poll and the callback - does not.
 			switch {
 			case !g.Parked():
-			case hasPoll(g) && g.State == "sync.Cond.Wait":
+			case hasPoll(g) && g.State == "sync.Cond.Wait": // certainly idle: no timer can end this wait
 				o.parked++
 				o.pollCond++
-			case hasPoll(g) && (g.State == "select" || g.State == "chan receive"):
-				o.parked++
-				o.pollSelect++
-			case hasPoll(g):
+			case hasPoll(g) && inMutexWait(g): // before any decision, waiting for one of the queue's locks
 				o.parked++
 				o.pollOther++
+			case hasPoll(g): // any other blocking primitive: holding an element until it is due, or idle in a channel-based wait
+				o.parked++
+				o.pollSelect++
 			case g.Has("main.(*run).deliver"):
 				o.parked++
 				o.inCallback++
@@ -710,6 +731,33 @@ func (r *run) observe() obs {
 	if o.allInPoll() {
 		for _, it := range ended {
 			it.doneTick.CompareAndSwap(0, s1)
+		}
+	}
+	// logical bound for all wait loops: count consecutive snapshots in which nothing at all changed (worker states,
+	// deliveries, callers, Shutdown) while no element is legitimately waiting for a due time within the next hour.
+	started := 0
+	timerPending := false
+	now, soon := time.Now(), time.Now().Add(time.Hour)
+	for _, it := range its {
+		if it == nil || it.schedRet.Load() == 0 {
+			continue
+		}
+		if it.starts.Load() > 0 {
+			started++
+		} else if it.accepted.Load() && it.sched.After(now) && it.sched.Before(soon) {
+			timerPending = true
+		}
+	}
+	key := fmt.Sprintf("%s|%d|%d|%d|%v%d%d%d|%d", o.sig, started, o.clients, o.shutdown, o.mutexShutdown, o.mutexAdd, o.mutexPoll, o.mutexOther, len(its))
+	if key == r.stallKey && !timerPending {
+		r.stallN++
+	} else {
+		r.stallKey, r.stallN = key, 0
+	}
+	if r.stallN > stallLimit {
+		r.stalled.Store(true)
+		if r.guarded {
+			panic(errGiveUp)
 		}
 	}
 	r.lastObs = o
@@ -736,10 +784,14 @@ func (r *run) guard(f func()) {
 	defer func() {
 		r.guarded = false
 		if p := recover(); p != nil {
-			if p != errDeadCandidate {
+			switch p {
+			case errDeadCandidate:
+				r.patterns["schedule-aborted-on-deadlock-candidate"] = true
+			case errGiveUp:
+				r.gaveUp = "scripted schedule: an expected state was not reached within the logical bound; last picture " + r.stallKey
+			default:
 				panic(p)
 			}
-			r.patterns["schedule-aborted-on-deadlock-candidate"] = true
 		}
 	}()
 	f()
@@ -816,9 +868,15 @@ func (r *run) finish() {
 		if o.clients == 0 && o.shutdown != 2 && (o.allIdle() || r.onlyFarFutureHeld(o)) {
 			break
 		}
+		if r.stallN > stallLimit || r.gaveUp != "" { // nothing has changed for stallLimit consecutive snapshots and no rule applies: give this case up
+			if r.gaveUp == "" {
+				r.gaveUp = fmt.Sprintf("quiescence could not be established within the logical bound (clients=%d shutdown=%d workers=%d idle=%d waiting-under-Poll=%d in-callback=%d lock-waits=%d); last picture %s", o.clients, o.shutdown, o.nWorkers, o.pollCond, o.pollSelect, o.inCallback, o.mutexAdd+o.mutexPoll+o.mutexOther, r.stallKey)
+			}
+			break
+		}
 		// Dead-lock of Shutdown with a concurrent caller: decided only when the same picture (who waits for which kind of
 		// lock, everybody else parked for good, nobody runnable) is seen in consecutive consistent snapshots.
-		if key := fmt.Sprintf("%v|%d|%d|%d|%s", o.mutexShutdown, o.mutexAdd, o.mutexPoll, o.mutexOther, o.sig); o.dead() && key == deadKey {
+		if key := fmt.Sprintf("%v|%d|%d|%d|%s", o.mutexShutdown, o.mutexAdd, o.mutexPoll, o.mutexOther, o.sig); o.dead() && (o.waitingUnderPoll == 0 || !r.nearMayBeHeld()) && key == deadKey {
 			if deadN++; deadN >= 2 {
 				r.deadlock = o.deadFP()
 				r.deadText = fmt.Sprintf("the Shutdown caller is parked in a lock acquisition inside runtime/timed together with %d Add/ExecuteAt caller(s), %d Poll caller(s) and %d other caller(s); every other goroutine of the run is parked in sync.Cond.Wait under Poll or gone, nothing is runnable and no timer is involved: none of these calls can ever return and the elements still queued are never delivered", o.mutexAdd, o.mutexPoll, o.mutexOther)
@@ -829,13 +887,18 @@ func (r *run) finish() {
 		}
 		pace(i)
 	}
-	r.hang = o.shutdown == 1 && o.allIdle()
+	// known observation outside the statement: Shutdown waits for workers that are parked below Poll although by the
+	// log nothing is pending any more (not even a far-future element) - nobody will ever wake them
+	r.hang = o.shutdown == 1 && o.nWorkers > 0 && o.pollCond+o.pollSelect == o.nWorkers && (o.allIdle() || r.pendingByLogNone(true))
 	r.holders = o.pollSelect
 	r.endAt = time.Now()
-	if r.deadlock == "" {
-		r.sizeAtEnd = r.size()
-	} else {
+	switch {
+	case r.deadlock != "":
 		r.hang, r.holders, r.sizeAtEnd = false, 0, -1 // Size() would block on the dead-locked heap lock
+	case r.gaveUp != "":
+		r.hang, r.sizeAtEnd = false, -1
+	default:
+		r.sizeAtEnd = r.size()
 	}
 	r.evaluate()
 }
@@ -849,7 +912,28 @@ func (r *run) onlyFarFutureHeld(o obs) bool {
 	if o.pollSelect == 0 || o.parked != o.nWorkers || o.pollCond+o.pollSelect != o.nWorkers {
 		return false
 	}
+	return !r.nearMayBeHeld()
+}
+
+// nearMayBeHeld consults the log: is there an accepted element that has not started, was not cancelled or replaced and is
+// not scheduled more than an hour ahead? Only such an element can end the wait of a worker that is parked below Poll.
+func (r *run) nearMayBeHeld() bool {
+	return r.pendingByLog(false)
+}
+
+// pendingByLog: some accepted element has not started and was neither cancelled nor replaced (far-future ones count only if asked for).
+func (r *run) pendingByLog(includeFar bool) bool {
+	return !r.pendingByLogNone(includeFar)
+}
+
+func (r *run) pendingByLogNone(includeFar bool) bool {
 	horizon := time.Now().Add(time.Hour)
+	if includeFar {
+		horizon = time.Date(9999, 12, 31, 23, 59, 59, 999, time.UTC).Add(time.Hour)
+	}
+	if r.flags&fCancel != 0 && r.shCall.Load() != 0 {
+		return true // CancelPendingElements: whatever is left was dropped by the flag
+	}
 	r.mu.Lock()
 	cancels := append([]cancelRec(nil), r.cancels...)
 	r.mu.Unlock()
@@ -1136,6 +1220,9 @@ func (r *run) evaluate() {
 		}
 		r.cnt["adds_exceeding_size_bound_model"] += allowedDrops
 		allowedDrops = min(allowedDrops, looseDrops)
+	}
+	if r.gaveUp != "" {
+		unexcused = nil // no "never delivered" verdict without established quiescence
 	}
 	// "Scheduled after the end of the run": an undelivered element is excused as not yet due only if (a) its scheduled
 	// instant is later than the instant at which quiescence was established, (b) the run ended with workers still holding
